@@ -13,4 +13,10 @@ TEXT = {
         "note": "Trusted: refwire builds valid bodies; ChunkReader returns exactly the chosen pieces; outcome comparison covers messages, error code/message/metadata, headers, trailers and the handler's response bytes.",
         "technique": "property-based testing (rapid) + exhaustive enumeration of segmentations: metamorphic relation one-piece vs segmented delivery",
     },
+    "C04": {
+        "text": "Fault enumeration: for each generated valid body every cut offset (all offsets of bodies ≤400 B quick / ≤8 KiB thorough, otherwise all frame boundaries ±2 plus 64 offsets), four endings and three HTTP-trailer modes are executed against the client; for requests every cut offset against the handler; for handler responses the k-th ResponseWriter.Write fails for every k; for client requests the transport stops reading after every offset k. Bodies themselves are sampled, the fault positions within each are enumerated.",
+        "design_ref": "DESIGN.md §5 C04",
+        "note": "Oracle = strict reference decoder (refwire) applied to exactly the bytes and trailers delivered; hangs are decided by a synctest bubble (deadlock ⇒ failure), not by wall-clock timeouts. Unary Connect bodies cut with a clean EOF are a different complete body and are not asserted.",
+        "technique": "property-based testing (rapid) with enumerated fault positions: differential against a strict reference decoder, prefix rule, coded-error rule, bubble deadlock detection",
+    },
 }
